@@ -394,6 +394,25 @@ func runC14(r *mc.Run) {
 			}
 		}
 	}
+	// RTMR lists whose entries are cut differently but add up to the registers' 4 x 48 bytes (and some that do not):
+	// four entries of 48 bytes (or empty) is what the field means
+	{
+		all := append([]byte(nil), raw0[48+328:48+328+192]...)
+		for _, cut := range [][]int{{192}, {96, 96}, {48, 144}, {144, 48}, {48, 48, 96}, {96, 48, 48}, {48, 96, 48}, {96, 0, 96}, {64, 64, 64}, {24, 24, 24, 24, 24, 24, 24, 24},
+			{0, 0, 0, 192}, {192, 0, 0, 0}, {47, 49, 48, 48}, {96, 96, 0, 0}, {48, 48, 48, 24, 24}, {1, 191}, {191, 1}} {
+			p := &ccpb.Policy{}
+			off := 0
+			for _, n := range cut {
+				e := make([]byte, n)
+				if off+n <= len(all) {
+					copy(e, all[off:off+n])
+				}
+				off += n
+				tp(p).Rtmrs = append(tp(p).Rtmrs, e)
+			}
+			add(fmt.Sprintf("rtmrs-cut/%v", cut), p)
+		}
+	}
 	ak := []string{"eq", "df", "em", "sh", "lo"}
 	for n := 0; n <= 3; n++ {
 		total := 1
